@@ -248,7 +248,8 @@ package parquet
 //@   modifies heap("parquet.readCounter"), srcPos, rfault
 //@   ensures[C10] err == nil ==> (rfault ==> old(rfault))
 //@   ensures[C11] err == nil ==> srcSize >= 8 && srcMagic(srcSize - 4) && srcLE32(srcSize - 8) + 8 <= srcSize
-//@   ensures[C08,C16] err == nil ==> srcPos == srcSize - 8 - srcLE32(srcSize - 8) + thriftLen(srcB, srcSize - 8 - srcLE32(srcSize - 8))
+// accepted means: a footer was decoded from the position the trailer addresses (C11: nothing is accepted on the strength of the trailer alone)
+//@   ensures[C08,C16,C11] err == nil ==> srcPos == srcSize - 8 - srcLE32(srcSize - 8) + thriftLen(srcB, srcSize - 8 - srcLE32(srcSize - 8)) && thriftLen(srcB, srcSize - 8 - srcLE32(srcSize - 8)) >= 1
 
 //@ func (*Metadata).ReadFooter
 //@   requires m != nil && external(r)
